@@ -115,7 +115,25 @@ pub fn replay(cases: &[Value], out: &mut TraceOut) {
             out.emit(json!({"ev":"Reset","run":i+1,"table":table}));
             let mut app = App::new().app_data(Tag(table["data"].as_u64().unwrap()));
             for c in table["children"].as_array().unwrap() {
-                app = if c["t"] == "scope" { app.service(build_scope(c)) } else { app.service(build_resource(c)) };
+                app = if c["t"] == "scope" {
+                    app.service(build_scope(c))
+                } else if c["via"] == "cfg" {
+                    // the same resource written as `cfg.route(path, route)`: its guards are the route's guards
+                    let c = c.clone();
+                    app.configure(move |cfg: &mut web::ServiceConfig| {
+                        let id = c["routes"][0]["id"].as_u64().unwrap();
+                        let mut route = web::route();
+                        if let Some(g) = method_guard(c["guard"].as_str().unwrap()) {
+                            route = route.guard(g);
+                        }
+                        if c["hg"].as_bool().unwrap_or(false) {
+                            route = route.guard(guard::Header("x-g", "1"));
+                        }
+                        cfg.route(&pat_string(&c["pats"][0]), route.to(move |req: HttpRequest| async move { answer(id, &req) }));
+                    })
+                } else {
+                    app.service(build_resource(c))
+                };
             }
             let d = table["dflt"].as_u64().unwrap();
             if d != 0 {
